@@ -18,6 +18,7 @@ package main
 // 48 bytes, else "#LEN:HASH" with HASH = fold (h*31+b) mod 2^32.  Error CLASSES only, never messages.
 
 import (
+	"bytes"
 	"context"
 	"errors"
 	"fmt"
@@ -211,6 +212,9 @@ func (g *gcsImpl) exec(t []string) string {
 		return fmt.Sprintf("bytes=%s err:%s", renderBytes(b[:n]), errClass(err))
 	case "write":
 		n, err := h.Write(payloadOf(t[2]))
+		return fmt.Sprintf("n=%d err:%s", n, errClass(err))
+	case "readfrom": // io.Copy into the handle from a reader that offers nothing but Read: io.ReaderFrom if the handle has it, Write otherwise
+		n, err := io.Copy(h, struct{ io.Reader }{bytes.NewReader(payloadOf(t[2]))})
 		return fmt.Sprintf("n=%d err:%s", n, errClass(err))
 	case "writeat":
 		n, err := h.WriteAt(payloadOf(t[2]), int64(atoi(t[3])))
